@@ -71,8 +71,20 @@ package snappy
 //@   unproved make@"b := make([]byte, len(x.input), 2*cap(x.input))" for an unframed stream the input buffer doubles for as long as the underlying reader produces data; it is bounded by the stream, not by the code
 //@   ensures x.offset == 0
 //@   loop 0 invariant len(x.input) <= cap(x.input) && cap(x.input) > 0
+// readChunk throws away what is left of the previous decoded block: it may only be called when every decoded byte has
+// been handed out (lossless for every interleaving of Read and WriteTo)
+//@ func (*xerialReader).WriteTo
+//@   requires 0 <= x.offset
+//@   option noframe
+//@   modifies heap
+//@   callsite (*xerialReader).readChunk requires x.offset >= int64(len(x.output))
+//@   assume io.Writer contract: Write reports 0 <= n <= len(p)
+//@   callsite iface Writer.Write ensures 0 <= result0 && result0 <= len($1)
+//@   loop 0 invariant 0 <= x.offset
+//@   loop 1 invariant 0 <= x.offset
 //@ func (*xerialReader).Read
 //@   requires 0 <= x.offset
+//@   callsite (*xerialReader).readChunk requires x.offset >= int64(len(x.output))
 //@   option noframe
 //@   modifies heap
 //@   ensures 0 <= result0 && result0 <= len(b) && 0 <= x.offset
